@@ -45,6 +45,8 @@ const (
 	ptDeferStore
 	ptGoStore
 	ptInvokeCallback
+	ptPhiStruct
+	ptCellViaHelper
 	ptNumTransports
 )
 
@@ -180,7 +182,8 @@ func (w *verifPtrWorld) call(fnVal ssa.Value, args []ssa.Value, t types.Type, ca
 	return v
 }
 
-func verifNewPtrWorld(structElem bool) *verifPtrWorld {
+func verifNewPtrWorld(mode int) *verifPtrWorld {
+	structElem := mode >= 1
 	w := &verifPtrWorld{funcs: map[*ssa.Function]bool{}, objs: map[types.Object]ssa.Member{}}
 	w.tpkg = types.NewPackage("main", "main")
 	w.tpkg.MarkComplete()
@@ -200,6 +203,11 @@ func verifNewPtrWorld(structElem bool) *verifPtrWorld {
 		w.P = types.NewPointer(named)
 		named.SetUnderlying(types.NewStruct([]*types.Var{types.NewField(token.NoPos, w.tpkg, "next", w.P, false)}, nil))
 		w.elem = named
+		if mode == 2 {
+			// the tracked allocations are cells holding a *N: elem = *N, P = **N
+			w.elem = w.P
+			w.P = types.NewPointer(w.elem)
+		}
 	}
 	w.PP = types.NewPointer(w.P)
 	w.S = types.NewStruct([]*types.Var{
@@ -525,6 +533,59 @@ func (w *verifPtrWorld) transport(t int, v ssa.Value, other ssa.Value, variant i
 		fb := w.val(&ssa.FieldAddr{X: ps, Field: variant}, w.PP)
 		w.Cells = append(w.Cells, fa, fb)
 		return w.load(fb, w.P)
+	case ptPhiStruct:
+		// s1.<f|g> = v ; s2.<f|g> = other ; r = phi(*s1, *s2) (a struct-typed phi) ; q = r.<f|g>
+		s1 := w.alloc(w.S, "s1")
+		s2 := w.alloc(w.S, "s2")
+		w.store(w.val(&ssa.FieldAddr{X: s1, Field: variant}, w.PP), v)
+		w.store(w.val(&ssa.FieldAddr{X: s2, Field: variant}, w.PP), other)
+		sv1 := w.load(s1, w.S)
+		sv2 := w.load(s2, w.S)
+		cond := ssa.NewConst(constant.MakeBool(true), types.Typ[types.Bool])
+		w.emit(&ssa.If{Cond: cond})
+		b0 := w.curB
+		w.endBlock()
+		bT := &ssa.BasicBlock{Index: len(w.blocks)}
+		bF := &ssa.BasicBlock{Index: len(w.blocks) + 1}
+		bJ := &ssa.BasicBlock{Index: len(w.blocks) + 2}
+		b0.Succs = []*ssa.BasicBlock{bT, bF}
+		bT.Preds, bF.Preds = []*ssa.BasicBlock{b0}, []*ssa.BasicBlock{b0}
+		bT.Succs, bF.Succs = []*ssa.BasicBlock{bJ}, []*ssa.BasicBlock{bJ}
+		bJ.Preds = []*ssa.BasicBlock{bT, bF}
+		w.curB, w.cur = bT, []ssa.Instruction{&ssa.Jump{}}
+		w.endBlock()
+		w.curB, w.cur = bF, []ssa.Instruction{&ssa.Jump{}}
+		w.endBlock()
+		w.curB, w.cur = bJ, nil
+		r := w.val(&ssa.Phi{Edges: []ssa.Value{sv1, sv2}}, w.S)
+		return w.val(&ssa.Field{X: r, Field: variant}, w.P)
+	case ptCellViaHelper:
+		// two cells read through the same small helper  func deref(c **T) *T { return *c }  (a function the pointer
+		// analysis analyses once per call site): one cell holds the other allocation, one holds v
+		var f *ssa.Function
+		if m, ok := w.pkg.Members["deref"]; ok {
+			f = m.(*ssa.Function)
+		} else {
+			f = w.newFn("deref", w.sig([]types.Type{w.PP}, []types.Type{w.P}))
+			c := w.param(f, "c", w.PP, nil)
+			ld := &ssa.UnOp{Op: token.MUL, X: c}
+			verifSetUnexported(ld, "typ", w.P)
+			w.simpleFn(f, []ssa.Instruction{ld, &ssa.Return{Results: []ssa.Value{ld}}})
+		}
+		c0 := w.alloc(w.P, "cellOther")
+		c1 := w.alloc(w.P, "cellV")
+		w.store(c0, other)
+		w.store(c1, v)
+		var q ssa.Value
+		if variant == 0 {
+			w.call(f, []ssa.Value{c0}, w.P, f)
+			q = w.call(f, []ssa.Value{c1}, w.P, f)
+		} else {
+			q = w.call(f, []ssa.Value{c1}, w.P, f)
+			w.call(f, []ssa.Value{c0}, w.P, f)
+		}
+		w.Cells = append(w.Cells, c1, f.Params[0])
+		return q
 	case ptInvokeCallback:
 		// var i I = T_k{} ; i.run(id_k', v)  (result-less interface call taking a function value) ; q = G
 		tp := w.alloc(w.namedT[variant], "recv")
@@ -584,7 +645,7 @@ func (w *verifPtrWorld) transport(t int, v ssa.Value, other ssa.Value, variant i
 // from position split on are executed inside a callee mid(p, q *int) *int that main calls statically), and stores
 // the final value into a fresh cell.
 func verifBuildPtrChain(ts []int, variants []int, k int, split int) *verifPtrWorld {
-	w := verifNewPtrWorld(false)
+	w := verifNewPtrWorld(0)
 	mainFn := w.newFn("main", w.sig(nil, nil))
 	var midFn *ssa.Function
 	if split < len(ts) {
@@ -655,6 +716,8 @@ const (
 	acStore = iota
 	acLoad
 	acCalleeStore
+	acCalleeTwoPathsParam // touch2(h, q) with h.f == q : the callee stores through its second parameter
+	acCalleeTwoPathsField // touch3(q, h) with h.f == q : the callee stores through the pointer loaded from h.f
 	acNumAccesses
 )
 
@@ -717,7 +780,7 @@ func (w *verifPtrWorld) plainCall(f ssa.Value, args ...ssa.Value) *ssa.Call {
 }
 
 func VerifBuildShareProgram(ts, variants []int, leak, leakAt, access, accessAt int) *VerifShareWorld {
-	w := verifNewPtrWorld(true)
+	w := verifNewPtrWorld(1)
 	out := &VerifShareWorld{Prog: w.prog, Funcs: w.funcs}
 	racy := func(i ssa.Instruction, f *ssa.Function, via *ssa.Call) {
 		out.Racy = append(out.Racy, VerifRacyAccess{i, f, via})
@@ -850,6 +913,20 @@ func VerifBuildShareProgram(ts, variants []int, leak, leakAt, access, accessAt i
 		touch := w.fnWith("touch", []types.Type{w.P}, func(ps []ssa.Value) { st = w.writeNext(ps[0]) })
 		c := w.plainCall(touch, q)
 		racy(st, touch, c)
+	case acCalleeTwoPathsParam, acCalleeTwoPathsField:
+		// the accessed object is reachable from two arguments of the call: through h.f and directly
+		h := w.alloc(w.S, "twoPaths")
+		w.store(w.val(&ssa.FieldAddr{X: h, Field: 0}, w.PP), q)
+		var st *ssa.Store
+		if access == acCalleeTwoPathsParam {
+			t2 := w.fnWith("touch2", []types.Type{w.PS, w.P}, func(ps []ssa.Value) { st = w.writeNext(ps[1]) })
+			racy(st, t2, w.plainCall(t2, h, q))
+		} else {
+			t3 := w.fnWith("touch3", []types.Type{w.P, w.PS}, func(ps []ssa.Value) {
+				st = w.writeNext(w.load(w.val(&ssa.FieldAddr{X: ps[1], Field: 0}, w.PP), w.P))
+			})
+			racy(st, t3, w.plainCall(t3, q, h))
+		}
 	}
 	w.emit(&ssa.Return{})
 	w.endFn()
@@ -891,21 +968,32 @@ type VerifFlowWorld struct {
 	SourceFn *ssa.Function
 }
 
-func VerifBuildFlowProgram(share int, shareFirst bool, t int, variant int) *VerifFlowWorld {
-	w := verifNewPtrWorld(true)
+func VerifBuildFlowProgram(share int, shareFirst bool, t int, variant int, storeForm int, cellT int, cellVariant int) *VerifFlowWorld {
+	mode := 1
+	if cellT >= 0 {
+		mode = 2 // the transports move the cell's address instead of the data
+		t = -1
+	}
+	w := verifNewPtrWorld(mode)
 	out := &VerifFlowWorld{Prog: w.prog, Funcs: w.funcs}
-	PPP := types.NewPointer(w.PP)
+	// D: type of the data (*N); C: type of the cell's address (**N); CC: ***N
+	D, C := w.P, w.PP
+	if mode == 2 {
+		D, C = w.elem, w.P
+	}
+	CC := types.Type(types.NewPointer(C))
+	PPP := CC
 	// func source() *N { return new(N) } ; func sink(p *N) {}
-	src := w.newFn("source", w.sig(nil, []types.Type{w.P}))
+	src := w.newFn("source", w.sig(nil, []types.Type{D}))
 	{
 		sFn, sBlocks, sCur, sCurB := w.fn, w.blocks, w.cur, w.curB
 		w.beginFn(src)
-		a := w.alloc(w.elem, "secret")
+		a := w.alloc(D.(*types.Pointer).Elem(), "secret")
 		w.emit(&ssa.Return{Results: []ssa.Value{a}})
 		w.endFn()
 		w.fn, w.blocks, w.cur, w.curB = sFn, sBlocks, sCur, sCurB
 	}
-	sink := w.fnWith("sink", []types.Type{w.P}, func([]ssa.Value) {})
+	sink := w.fnWith("sink", []types.Type{D}, func([]ssa.Value) {})
 	out.SourceFn, out.SinkFn = src, sink
 	sinkCall := func(v ssa.Value) {
 		c := w.plainCall(sink, v)
@@ -915,53 +1003,53 @@ func VerifBuildFlowProgram(share int, shareFirst bool, t int, variant int) *Veri
 	out.Main = mainFn
 	w.beginFn(mainFn)
 	w.A[1] = w.alloc(w.elem, "other")
-	cell := w.alloc(w.P, "cell")
+	cell := w.alloc(D, "cell")
 	doShare := func() {
 		switch share {
 		case shGoArg:
-			rd := w.fnWith("reader", []types.Type{w.PP}, func(ps []ssa.Value) { sinkCall(w.load(ps[0], w.P)) })
+			rd := w.fnWith("reader", []types.Type{C}, func(ps []ssa.Value) { sinkCall(w.load(ps[0], D)) })
 			w.goCall(rd, cell)
 		case shGlobal:
-			gv := types.NewVar(token.NoPos, w.tpkg, "GC", w.PP)
+			gv := types.NewVar(token.NoPos, w.tpkg, "GC", C)
 			gc := &ssa.Global{Pkg: w.pkg}
 			verifSetUnexported(gc, "name", "GC")
 			verifSetUnexported(gc, "typ", types.Type(PPP))
 			verifSetUnexported(gc, "object", gv)
 			w.pkg.Members["GC"] = gc
 			w.objs[gv] = gc
-			rd := w.fnWith("greader", nil, func([]ssa.Value) { sinkCall(w.load(w.load(gc, w.PP), w.P)) })
+			rd := w.fnWith("greader", nil, func([]ssa.Value) { sinkCall(w.load(w.load(gc, C), D)) })
 			w.store(gc, cell)
 			w.goCall(rd)
 		case shClosure:
 			f := w.newFn("cloreader", w.sig(nil, nil))
 			fv := &ssa.FreeVar{}
 			verifSetUnexported(fv, "name", "cell")
-			verifSetUnexported(fv, "typ", w.PP)
+			verifSetUnexported(fv, "typ", C)
 			verifSetUnexported(fv, "parent", f)
 			f.FreeVars = []*ssa.FreeVar{fv}
 			sFn, sBlocks, sCur, sCurB := w.fn, w.blocks, w.cur, w.curB
 			w.beginFn(f)
-			sinkCall(w.load(fv, w.P))
+			sinkCall(w.load(fv, D))
 			w.emit(&ssa.Return{})
 			w.endFn()
 			w.fn, w.blocks, w.cur, w.curB = sFn, sBlocks, sCur, sCurB
 			mc := w.val(&ssa.MakeClosure{Fn: f, Bindings: []ssa.Value{cell}}, f.Signature)
 			w.goCall(mc)
 		case shHolder:
-			hT := types.NewStruct([]*types.Var{types.NewField(token.NoPos, w.tpkg, "c", w.PP, false)}, nil)
+			hT := types.NewStruct([]*types.Var{types.NewField(token.NoPos, w.tpkg, "c", C, false)}, nil)
 			pH := types.NewPointer(hT)
 			rd := w.fnWith("hreader", []types.Type{pH}, func(ps []ssa.Value) {
-				c := w.load(w.val(&ssa.FieldAddr{X: ps[0], Field: 0}, PPP), w.PP)
-				sinkCall(w.load(c, w.P))
+				c := w.load(w.val(&ssa.FieldAddr{X: ps[0], Field: 0}, PPP), C)
+				sinkCall(w.load(c, D))
 			})
 			h := w.alloc(hT, "holder")
 			w.store(w.val(&ssa.FieldAddr{X: h, Field: 0}, PPP), cell)
 			w.goCall(rd, h)
 		case shChanOfCell:
-			chT := types.NewChan(types.SendRecv, w.PP)
+			chT := types.NewChan(types.SendRecv, C)
 			rd := w.fnWith("creader", []types.Type{chT}, func(ps []ssa.Value) {
-				c := w.val(&ssa.UnOp{Op: token.ARROW, X: ps[0]}, w.PP)
-				sinkCall(w.load(c, w.P))
+				c := w.val(&ssa.UnOp{Op: token.ARROW, X: ps[0]}, C)
+				sinkCall(w.load(c, D))
 			})
 			ch := w.val(&ssa.MakeChan{Size: w.intConst(1)}, chT)
 			w.emit(&ssa.Send{Chan: ch, X: cell})
@@ -973,12 +1061,37 @@ func VerifBuildFlowProgram(share int, shareFirst bool, t int, variant int) *Veri
 	}
 	sc := &ssa.Call{}
 	sc.Call.Value = src
-	x := w.val(sc, w.P)
+	x := w.val(sc, D)
 	out.Source = sc
 	if t >= 0 {
 		x = w.transport(t, x, w.A[1], variant)
 	}
-	w.store(cell, x)
+	wcell := cell // the address the writer uses: the cell's address, possibly after a transport
+	if cellT >= 0 {
+		wcell = w.transport(cellT, cell, w.A[1], cellVariant)
+	}
+	switch storeForm {
+	case 0:
+		w.store(wcell, x)
+	case 1: // put(cell, x) with  func put(c **N, v *N) { *c = v }
+		put := w.fnWith("put", []types.Type{C, D}, func(ps []ssa.Value) { w.store(ps[0], ps[1]) })
+		w.plainCall(put, wcell, x)
+	default: // put2(h, cell, x) / put3(cell, h, x) with h.c == cell: the cell is reachable from two arguments
+		hT := types.NewStruct([]*types.Var{types.NewField(token.NoPos, w.tpkg, "c", C, false)}, nil)
+		pH := types.NewPointer(hT)
+		h := w.alloc(hT, "twoPaths")
+		w.store(w.val(&ssa.FieldAddr{X: h, Field: 0}, PPP), wcell)
+		if storeForm == 2 {
+			put2 := w.fnWith("put2", []types.Type{pH, C, D}, func(ps []ssa.Value) { w.store(ps[1], ps[2]) })
+			w.plainCall(put2, h, wcell, x)
+		} else {
+			put3 := w.fnWith("put3", []types.Type{C, pH, D}, func(ps []ssa.Value) {
+				c := w.load(w.val(&ssa.FieldAddr{X: ps[1], Field: 0}, PPP), C)
+				w.store(c, ps[2])
+			})
+			w.plainCall(put3, wcell, h, x)
+		}
+	}
 	if !shareFirst {
 		doShare()
 	}
